@@ -1,9 +1,10 @@
 (* C14: the Gallina terms GENERATED from transform/tredactemail/redactemail.go (Gen/C14Gen.v, regenerated on
    every check; all seven functions and the two lookup tables built by init() are translated) against the
    hand-written model Model/Redact.v.  Proved here, for every input: the tables are the character classes
-   of the model, and redactEmailCheckNumber = check_number.  The other functions are translated and
-   validated against the real Go code by bin/go2coq-selftest; their equivalence proofs are not done yet
-   (design_notes/XLT.md). *)
+   of the model, redactEmailCheckNumber = check_number, and the scanning functions redactFindEmailStart,
+   redactFindEmailEnd, redactFindEmailBoundary, redactEmailFindFirst equal find_start, find_end,
+   find_boundary, find_first.  redactEmail1 / redactEmail are translated and validated against the real Go
+   code by bin/go2coq-selftest; their equivalence proof is not done (design_notes/XLT.md). *)
 From SV Require Import Model.Common Model.GoSem Model.Redact Spec.RedactSpec Proofs.GoSemFacts Proofs.RedactProofs.
 From SV Require Gen.C14Gen.
 From Coq Require Import Lia ZifyBool ZifyN ZifyNat.
@@ -42,19 +43,6 @@ Lemma tables_init_ok : exists r, C14Gen.tables_init = GOk r.
 Proof. eexists. vm_compute. reflexivity. Qed.
 
 (* ---------- redactEmailCheckNumber ---------- *)
-Lemma firstn_snoc_nth : forall {A} (l : list A) n x, nth_error l n = Some x -> firstn (S n) l = firstn n l ++ [x].
-Proof.
-  intros A l. induction l as [|y l IH]; intros [|n] x H; cbn in *; try discriminate.
-  - injection H as ->. reflexivity.
-  - f_equal. apply IH. assumption.
-Qed.
-
-Lemma nth_error_firstn_lt : forall {A} (l : list A) n k, (k < n)%nat -> nth_error (firstn n l) k = nth_error l k.
-Proof.
-  intros A l. induction l as [|y l IH]; intros [|n] [|k] H; cbn; try reflexivity; try lia.
-  apply IH. lia.
-Qed.
-
 Definition num_ok (c : N) : bool := (is_digit c || (c =? ch_dot)%N)%bool.
 
 Lemma check_number_gen_eq : forall s : bytes,
@@ -158,4 +146,332 @@ Proof.
   intros d. destruct (check_number_spec d) as (b & Hb & Hn). exists b. split; [|assumption].
   pose proof (check_number_gen_eq d) as E. rewrite Hb in E.
   destruct (C14Gen.redactEmailCheckNumber d); cbn in E; congruence.
+Qed.
+
+(* ====================================================================================================
+   The scanning functions.  Go's int is Z, the model's indices are nat and "-1" is [None]: [opt_int].
+   The lookup tables are indexed by a byte, so the text must consist of bytes: [bytes_ok] (c < 256);
+   the index arguments are within the text (atIndex is the position of an '@' in every call).
+   Each loop: a lemma over ANY cond/body/post that satisfy pointwise specifications (proved by induction),
+   instantiated with the generated lambdas, whose specifications are closed by case analysis. *)
+Definition opt_int (o : option nat) : Z := match o with Some n => Z.of_nat n | None => -1 end.
+Definition bytes_ok (t : bytes) : Prop := Forall (fun c => (c < 256)%N) t.
+
+Lemma bytes_ok_nth : forall t i c, bytes_ok t -> nth_error t i = Some c -> (c < 256)%N.
+Proof. intros t i c H Hn. unfold bytes_ok in H. rewrite Forall_forall in H. apply H. eapply nth_error_In; eassumption. Qed.
+
+Lemma get_ok : forall t i c, nth_error t i = Some c -> get t i = Ok c.
+Proof. intros t i c H. unfold get. rewrite H. reflexivity. Qed.
+
+Lemma sub_ok : forall t a b, (a <= b <= length t)%nat -> sub t a b = Ok (firstn (b - a) (skipn a t)).
+Proof.
+  intros t a b H. unfold sub, slice. replace (Nat.leb a b && Nat.leb b (length t))%bool with true by lia. reflexivity.
+Qed.
+
+(* closes a pointwise specification of a generated lambda, after the facts about its reads were rewritten *)
+Ltac close_spec :=
+  repeat (cbn [gbind]; try split_if); cbn [gbind];
+  first [ reflexivity | f_equal; lia | f_equal; f_equal; lia | exfalso; lia ].
+
+(* ---------- redactFindEmailStart ---------- *)
+Section FindStart.
+  Variable t : bytes.
+  Variable l : nat.
+  Variables (cond : Z -> gres bool) (body : Z -> gres (ctl Z Z)) (post : Z -> gres Z).
+  Hypothesis Hcond : forall v, cond v = GOk (Z.of_nat l <=? v).
+  Hypothesis Hbody : forall i c, nth_error t i = Some c ->
+    body (Z.of_nat i) = GOk (if is_addr c then CNext (Z.of_nat i) else CBrk (Z.of_nat i)).
+  Hypothesis Hpost : forall v, post v = GOk (v - 1).
+
+  Lemma fs_loop_gen : forall j fuel, (j <= length t)%nat -> (j < fuel)%nat ->
+    exists j', find_start_loop t l j = Ok j' /\ (j' <= j)%nat /\
+               go_loop fuel cond body post (Z.of_nat j - 1) = GOk (inl (Z.of_nat j' - 1)).
+  Proof.
+    induction j as [|i IH]; intros fuel Hj Hf; (destruct fuel as [|fuel]; [lia|]); rewrite go_loop_S, Hcond; cbn [gbind].
+    - exists O. replace (Z.of_nat l <=? Z.of_nat 0 - 1) with false by lia. repeat split; reflexivity || lia.
+    - cbn [find_start_loop].
+      replace (Z.of_nat (S i) - 1) with (Z.of_nat i) by lia.
+      destruct (Nat.leb_spec l i) as [Hl|Hl].
+      + replace (Z.of_nat l <=? Z.of_nat i) with true by lia.
+        destruct (nth_lt t i ltac:(lia)) as (c & Hc). rewrite (get_ok _ _ _ Hc), (Hbody _ _ Hc). cbn [rbind gbind].
+        destruct (is_addr c).
+        * rewrite Hpost. cbn [gbind]. destruct (IH fuel ltac:(lia) ltac:(lia)) as (j' & E1 & E2 & E3).
+          exists j'. repeat split; [assumption|lia|assumption].
+        * exists (S i). repeat split; [lia|]. do 3 f_equal. lia.
+      + replace (Z.of_nat l <=? Z.of_nat i) with false by lia.
+        exists (S i). repeat split; [lia|]. do 3 f_equal. lia.
+  Qed.
+End FindStart.
+
+Lemma find_start_gen_eq : forall (t : bytes) (a l : nat),
+  bytes_ok t -> (a <= length t)%nat ->
+  exists r, find_start t a l = Ok r /\
+            C14Gen.redactFindEmailStart t (Z.of_nat a) (Z.of_nat l) = GOk (opt_int r).
+Proof.
+  intros t a l Hb Ha. unfold C14Gen.redactFindEmailStart, C14Gen.redactFindEmailStart_fuel, find_start.
+  cbv zeta.
+  match goal with
+  | |- context [go_loop ?fl ?cd ?bd ?pt ?st0] =>
+    destruct (fs_loop_gen t l cd bd pt) with (j := a) (fuel := fl) as (j' & -> & Hj' & ->)
+  end.
+  - intros v. reflexivity.
+  - intros i c Hc. cbv beta. rewrite (go_index_nat _ _ _ Hc). cbn [gbind].
+    rewrite (addr_table_gen c (bytes_ok_nth _ _ _ Hb Hc)). destruct (is_addr c); close_spec.
+  - intros v. reflexivity.
+  - assumption.
+  - lia.
+  - cbn [rbind gbind]. destruct j' as [|i].
+    + exists (Some O). split; [reflexivity|]. close_spec.
+    + destruct (nth_lt t i ltac:(lia)) as (c & Hc). rewrite (get_ok _ _ _ Hc). cbn [rbind].
+      replace (Z.of_nat (S i) - 1) with (Z.of_nat i) by lia. rewrite (go_index_nat _ _ _ Hc).
+      unfold ch_slash. destruct (N.eqb_spec c 47) as [->|Hne].
+      * exists None. split; [reflexivity|]. close_spec.
+      * exists (Some (S i)). split; [reflexivity|]. cbn [opt_int]. close_spec.
+Qed.
+
+(* ---------- redactFindEmailEnd ---------- *)
+Lemma skipn_cons_nth : forall {A} (t : list A) i c r, skipn i t = c :: r ->
+  nth_error t i = Some c /\ skipn (S i) t = r /\ (i < length t)%nat.
+Proof.
+  intros A t. induction t as [|x t IH]; intros [|i] c r H; cbn in *; try discriminate.
+  - injection H as -> ->. repeat split; lia.
+  - destruct (IH i c r H) as (H1 & H2 & H3). repeat split; [assumption|assumption|lia].
+Qed.
+
+Lemma check_number_pair : forall d : bytes, exists b, check_number d = Ok b /\ C14Gen.redactEmailCheckNumber d = GOk b.
+Proof.
+  intros d. destruct (check_number_total d) as [b Hb]. exists b. split; [assumption|].
+  pose proof (check_number_gen_eq d) as E. rewrite Hb in E.
+  destruct (C14Gen.redactEmailCheckNumber d); cbn in E; congruence.
+Qed.
+
+Section DotScan.
+  Variable t : bytes.
+  Variables (cond : Z * Z -> gres bool) (body : Z * Z -> gres (ctl (Z * Z) Z)) (post : Z * Z -> gres (Z * Z)).
+  Hypothesis Hcond : forall d v, cond (d, v) = GOk (v <? go_len t).
+  Hypothesis Hbody : forall d i c, nth_error t i = Some c ->
+    body (d, Z.of_nat i) = GOk (if negb (is_addr c) then CRet (-1)
+                                else if (c =? 46)%N then CBrk (Z.of_nat i, Z.of_nat i) else CNext (d, Z.of_nat i)).
+  Hypothesis Hpost : forall d v, post (d, v) = GOk (d, v + 1).
+
+  Lemma dot_loop_gen : forall rest i d fuel, skipn i t = rest -> (i <= length t)%nat -> (length rest < fuel)%nat ->
+    go_loop fuel cond body post (d, Z.of_nat i) =
+      GOk (match dot_scan rest i with
+           | DotNotAddr => inr (-1)
+           | DotNone => inl (d, go_len t)
+           | DotAt k => inl (Z.of_nat k, Z.of_nat k)
+           end) /\
+    match dot_scan rest i with DotAt k => (i <= k < length t)%nat | _ => True end.
+  Proof.
+    induction rest as [|c r IH]; intros i d fuel Hs Hi Hf; (destruct fuel as [|fuel]; [cbn [length] in Hf; lia|]);
+      rewrite go_loop_S, Hcond; cbn [gbind dot_scan].
+    - assert (length t <= i)%nat.
+      { assert (E : length (skipn i t) = 0%nat) by (rewrite Hs; reflexivity). rewrite skipn_length in E. lia. }
+      replace (Z.of_nat i <? go_len t) with false by (unfold go_len; lia).
+      split; [|exact I]. do 3 f_equal. unfold go_len. lia.
+    - destruct (skipn_cons_nth _ _ _ _ Hs) as (Hc & Hr & Hlt).
+      replace (Z.of_nat i <? go_len t) with true by (unfold go_len; lia).
+      rewrite (Hbody _ _ _ Hc). cbn [gbind].
+      destruct (negb (is_addr c)); [split; [reflexivity|exact I]|].
+      unfold ch_dot. destruct (c =? 46)%N; [split; [reflexivity|lia]|].
+      rewrite Hpost. cbn [gbind]. replace (Z.of_nat i + 1) with (Z.of_nat (S i)) by lia.
+      cbn [length] in Hf. destruct (IH (S i) d fuel Hr ltac:(lia) ltac:(lia)) as (E1 & E2). split; [exact E1|].
+      destruct (dot_scan r (S i)); try exact I. lia.
+  Qed.
+End DotScan.
+
+Section EndScan.
+  Variable t : bytes.
+  Variables (cond : Z -> gres bool) (body : Z -> gres (ctl Z Z)) (post : Z -> gres Z).
+  Hypothesis Hcond : forall v, cond v = GOk (v <? go_len t).
+  Hypothesis Hbody : forall i c, nth_error t i = Some c ->
+    body (Z.of_nat i) = GOk (if negb (is_addr c) then CBrk (Z.of_nat i) else CNext (Z.of_nat i)).
+  Hypothesis Hpost : forall v, post v = GOk (v + 1).
+
+  Lemma end_loop_gen : forall rest i fuel, skipn i t = rest -> (i <= length t)%nat -> (length rest < fuel)%nat ->
+    go_loop fuel cond body post (Z.of_nat i) = GOk (inl (Z.of_nat (end_scan rest i))) /\
+    (i <= end_scan rest i <= length t)%nat.
+  Proof.
+    induction rest as [|c r IH]; intros i fuel Hs Hi Hf; (destruct fuel as [|fuel]; [cbn [length] in Hf; lia|]);
+      rewrite go_loop_S, Hcond; cbn [gbind end_scan].
+    - assert (length t <= i)%nat.
+      { assert (E : length (skipn i t) = 0%nat) by (rewrite Hs; reflexivity). rewrite skipn_length in E. lia. }
+      replace (Z.of_nat i <? go_len t) with false by (unfold go_len; lia). split; [reflexivity|lia].
+    - destruct (skipn_cons_nth _ _ _ _ Hs) as (Hc & Hr & Hlt).
+      replace (Z.of_nat i <? go_len t) with true by (unfold go_len; lia).
+      rewrite (Hbody _ _ Hc). cbn [gbind].
+      destruct (is_addr c); cbn [negb]; [|split; [reflexivity|lia]].
+      rewrite Hpost. cbn [gbind]. replace (Z.of_nat i + 1) with (Z.of_nat (S i)) by lia.
+      cbn [length] in Hf. destruct (IH (S i) fuel Hr ltac:(lia) ltac:(lia)) as (E1 & E2). split; [exact E1|lia].
+  Qed.
+End EndScan.
+
+Lemma find_end_gen_eq : forall (t : bytes) (a : nat),
+  bytes_ok t -> (a < length t)%nat ->
+  exists r, find_end t a = Ok r /\ C14Gen.redactFindEmailEnd t (Z.of_nat a) = GOk (opt_int r).
+Proof.
+  intros t a Hb Ha. unfold C14Gen.redactFindEmailEnd, C14Gen.redactFindEmailEnd_fuel, find_end.
+  cbv zeta. replace (Z.of_nat a + 1) with (Z.of_nat (a + 1)) by lia.
+  match goal with
+  | |- context [go_loop ?fl ?cd ?bd ?pt (?d0, _)] =>
+    destruct (dot_loop_gen t cd bd pt) with (rest := skipn (a + 1) t) (i := (a + 1)%nat) (d := d0) (fuel := fl) as (-> & Hk)
+  end.
+  - intros d v. reflexivity.
+  - intros d i c Hc. cbv beta. rewrite (go_index_nat _ _ _ Hc). cbn [gbind].
+    rewrite (addr_table_gen c (bytes_ok_nth _ _ _ Hb Hc)). destruct (is_addr c); cbn [negb gbind]; [|reflexivity].
+    destruct (c =? 46)%N; reflexivity.
+  - intros d v. reflexivity.
+  - reflexivity.
+  - lia.
+  - rewrite skipn_length. lia.
+  - cbn [gbind]. destruct (dot_scan (skipn (a + 1) t) (a + 1)) as [| |k].
+    + exists None. split; reflexivity.
+    + (* no dot: the rest of the text is the domain *)
+      replace (-1 =? -1) with true by reflexivity.
+      rewrite go_slice_from_nat by lia. cbn [gbind]. rewrite sub_ok by lia.
+      rewrite firstn_all2 by (rewrite skipn_length; lia). cbn [rbind].
+      destruct (check_number_pair (skipn (a + 1) t)) as (b & -> & ->). cbn [rbind gbind].
+      destruct b; [exists None|exists (Some (length t))]; split; reflexivity.
+    + replace (Z.of_nat k =? -1) with false by lia.
+      destruct (Nat.eqb_spec k (length t - 1)) as [Hke|Hkn].
+      { replace (Z.of_nat k =? go_len t - 1) with true by (unfold go_len; lia).
+        exists (Some (length t)). split; reflexivity. }
+      replace (Z.of_nat k =? go_len t - 1) with false by (unfold go_len; lia).
+      destruct (nth_lt t (k + 1) ltac:(lia)) as (c & Hc). rewrite (get_ok _ _ _ Hc). cbn [rbind].
+      replace (Z.of_nat k + 1) with (Z.of_nat (k + 1)) by lia. rewrite (go_index_nat _ _ _ Hc). cbn [gbind].
+      rewrite (word_table_gen c (bytes_ok_nth _ _ _ Hb Hc)). cbn [gbind].
+      destruct (is_word c); cbn [negb]; [|exists None; split; reflexivity].
+      replace (Z.of_nat k + 2) with (Z.of_nat (k + 2)) by lia.
+      match goal with
+      | |- context [go_loop ?fl ?cd ?bd ?pt _] =>
+        destruct (end_loop_gen t cd bd pt) with (rest := skipn (k + 2) t) (i := (k + 2)%nat) (fuel := fl) as (-> & He)
+      end.
+      * intros v. reflexivity.
+      * intros i c' Hc'. cbv beta. rewrite (go_index_nat _ _ _ Hc'). cbn [gbind].
+        rewrite (addr_table_gen c' (bytes_ok_nth _ _ _ Hb Hc')). destruct (is_addr c'); reflexivity.
+      * intros v. reflexivity.
+      * reflexivity.
+      * lia.
+      * rewrite skipn_length. lia.
+      * cbn [gbind]. set (e := end_scan (skipn (k + 2) t) (k + 2)) in *.
+        rewrite go_slice_nat by lia. cbn [gbind]. rewrite sub_ok by lia. cbn [rbind].
+        destruct (check_number_pair (firstn (e - (a + 1)) (skipn (a + 1) t))) as (b & -> & ->). cbn [rbind gbind].
+        destruct b; [exists None|exists (Some e)]; split; reflexivity.
+Qed.
+
+(* ---------- redactFindEmailBoundary ---------- *)
+Lemma find_boundary_gen_eq : forall (t : bytes) (a l : nat),
+  bytes_ok t -> (a < length t)%nat ->
+  exists s e, find_boundary t a l = Ok (s, e) /\
+              C14Gen.redactFindEmailBoundary t (Z.of_nat a) (Z.of_nat l) = GOk (opt_int s, opt_int e).
+Proof.
+  intros t a l Hb Ha. unfold C14Gen.redactFindEmailBoundary, find_boundary.
+  destruct (find_start_gen_eq t a l Hb ltac:(lia)) as (s & -> & ->). cbn [rbind gbind]. cbv zeta.
+  destruct s as [es|].
+  - cbn [opt_int]. replace (Z.of_nat es =? -1) with false by lia.
+    destruct (find_end_gen_eq t a Hb Ha) as (e & -> & ->). cbn [rbind gbind].
+    exists (Some es), e. split; reflexivity.
+  - exists None, None. split; reflexivity.
+Qed.
+
+(* ---------- redactEmailFindFirst ---------- *)
+Lemma go_index_byte_from_spec : forall s c off,
+  go_index_byte_from s c off = match index_byte s c with Some k => off + Z.of_nat k | None => -1 end.
+Proof.
+  induction s as [|x s IH]; intros c off; cbn [go_index_byte_from index_byte]; [reflexivity|].
+  destruct (x =? c)%N; [lia|]. rewrite IH. destruct (index_byte s c); cbn [option_map]; lia.
+Qed.
+
+Lemma go_index_byte_spec : forall s c, go_index_byte s c = opt_int (index_byte s c).
+Proof. intros. unfold go_index_byte. rewrite go_index_byte_from_spec. destruct (index_byte s c); cbn [opt_int]; lia. Qed.
+
+Lemma index_byte_lt : forall s c k, index_byte s c = Some k -> (k < length s)%nat.
+Proof.
+  induction s as [|x s IH]; intros c k H; cbn [index_byte] in H; [discriminate|].
+  destruct (x =? c)%N; [injection H as <-; cbn [length]; lia|].
+  destruct (index_byte s c) eqn:E; cbn [option_map] in H; [|discriminate]. injection H as <-.
+  specialize (IH _ _ E). cbn [length]. lia.
+Qed.
+
+Definition res_int (r : Z + Z) : Z := match r with inl _ => -1 | inr n => n end.
+
+Section FindFirst.
+  Variable t : bytes.
+  Variables (cond : Z -> gres bool) (body : Z -> gres (ctl Z Z)) (post : Z -> gres Z).
+  Hypothesis Hcond : forall v, cond v = GOk (v <? go_len t - 1).
+  Hypothesis Hbody : forall sAt, (S sAt < length t)%nat ->
+    exists g, at_guard t sAt = Ok g /\
+      body (Z.of_nat sAt) = GOk (if g then CRet (Z.of_nat sAt)
+                                 else match index_byte (skipn (S sAt) t) ch_at with
+                                      | None => CBrk (Z.of_nat (S sAt))
+                                      | Some k => CNext (Z.of_nat (S sAt + k))
+                                      end).
+  Hypothesis Hpost : forall v, post v = GOk v.
+
+  Lemma ff_loop_gen : forall mf sAt fuel, (mf <= fuel)%nat -> (length t - sAt < mf)%nat ->
+    exists r res, find_first_loop mf t sAt = Ok r /\
+                  go_loop fuel cond body post (Z.of_nat sAt) = GOk res /\ res_int res = opt_int r.
+  Proof.
+    induction mf as [|mf IH]; intros sAt fuel Hf Hm; [lia|]. destruct fuel as [|fuel]; [lia|].
+    rewrite go_loop_S, Hcond. cbn [gbind find_first_loop].
+    destruct (Nat.ltb_spec (S sAt) (length t)) as [Hlt|Hge].
+    - replace (Z.of_nat sAt <? go_len t - 1) with true by (unfold go_len; lia).
+      destruct (Hbody sAt Hlt) as (g & -> & ->). cbn [rbind gbind]. destruct g.
+      + exists (Some sAt), (inr (Z.of_nat sAt)). repeat split.
+      + rewrite sub_ok by lia. cbn [rbind]. rewrite firstn_all2 by (rewrite skipn_length; lia).
+        destruct (index_byte (skipn (S sAt) t) ch_at) as [k|] eqn:Ek.
+        * rewrite Hpost. cbn [gbind]. apply IH; lia.
+        * exists None, (inl (Z.of_nat (S sAt))). repeat split.
+    - replace (Z.of_nat sAt <? go_len t - 1) with false by (unfold go_len; lia).
+      exists None, (inl (Z.of_nat sAt)). repeat split.
+  Qed.
+End FindFirst.
+
+Lemma find_first_gen_eq : forall t : bytes,
+  bytes_ok t ->
+  exists r, find_first t = Ok r /\ C14Gen.redactEmailFindFirst t = GOk (opt_int r).
+Proof.
+  intros t Hb. unfold C14Gen.redactEmailFindFirst, C14Gen.redactEmailFindFirst_fuel, find_first.
+  cbv zeta. rewrite go_index_byte_spec. fold ch_at.
+  destruct (index_byte t ch_at) as [k0|] eqn:E0; cbn [opt_int].
+  - match goal with
+    | |- context [go_loop ?fl ?cd ?bd ?pt _] =>
+      destruct (ff_loop_gen t cd bd pt) with (mf := S (length t)) (sAt := k0) (fuel := fl) as (r & res & -> & -> & Hres)
+    end.
+    + intros v. reflexivity.
+    + (* the body *)
+      intros sAt Hlt. cbv beta. unfold at_guard.
+      destruct (nth_lt t (sAt + 1) ltac:(lia)) as (n & Hn).
+      replace (Z.of_nat sAt + 1) with (Z.of_nat (sAt + 1)) by lia.
+      rewrite (go_index_nat _ _ _ Hn), (get_ok _ _ _ Hn). cbn [gbind].
+      rewrite (word_table_gen n (bytes_ok_nth _ _ _ Hb Hn)).
+      replace (Z.of_nat (sAt + 1)) with (Z.of_nat (S sAt)) by lia.
+      rewrite go_slice_from_nat by lia. cbn [gbind]. rewrite go_index_byte_spec. fold ch_at.
+      destruct sAt as [|i].
+      * exists false. split; [reflexivity|]. cbn [gbind].
+        destruct (index_byte (skipn 1 t) ch_at); cbn [opt_int]; close_spec.
+      * destruct (nth_lt t i ltac:(lia)) as (p & Hp).
+        replace (S i - 1)%nat with i by lia. replace (Z.of_nat (S i) - 1) with (Z.of_nat i) by lia.
+        rewrite (go_index_nat _ _ _ Hp), (get_ok _ _ _ Hp). cbn [gbind]. rewrite (word_table_gen p (bytes_ok_nth _ _ _ Hb Hp)).
+        replace (0 <? S i)%nat with true by reflexivity. replace (0 <? Z.of_nat (S i)) with true by lia.
+        cbn [rbind gbind].
+        destruct (is_word p); cbn [rbind gbind].
+        { destruct (is_word n); [exists true|exists false]; (split; [reflexivity|]).
+          - reflexivity.
+          - destruct (index_byte (skipn (S (S i)) t) ch_at); cbn [opt_int]; close_spec. }
+        exists false. split; [reflexivity|].
+        destruct (index_byte (skipn (S (S i)) t) ch_at); cbn [opt_int]; close_spec.
+    + intros v. reflexivity.
+    + lia.
+    + lia.
+    + exists r. split; [reflexivity|]. cbn [gbind]. destruct res; cbn [res_int] in Hres; rewrite <- Hres; reflexivity.
+  - (* no '@' at all: Go still enters the loop once with sAt = -1 when the text is not empty *)
+    exists None. split; [reflexivity|].
+    destruct t as [|c0 t'].
+    + reflexivity.
+    + cbn [length Nat.add]. rewrite go_loop_S. cbn [gbind]. rewrite go_len_cons.
+      replace (-1 <? go_len t' + 1 - 1) with true by (pose proof (go_len_nonneg t'); lia).
+      replace (0 <? -1) with false by reflexivity. cbn [gbind].
+      replace (-1 + 1) with (Z.of_nat 0) by reflexivity. rewrite go_slice_from_nat by lia. cbn [skipn gbind].
+      rewrite go_index_byte_spec. fold ch_at. rewrite E0. reflexivity.
 Qed.
